@@ -151,6 +151,8 @@ def _write_lang(spec, via, d):
 def _mal_ok(spec, d):
     """the .mal text emitted for spec compiles back to exactly spec (else the .mal variant is not applicable)"""
     from maltoolbox.language.compiler import MalCompiler
+    if any(len(a["name"]) == 1 for a in spec["assets"]):       # single capitals such as A, C, I are lexer keywords
+        return False
     try:
         p = _write_lang(spec, "mal", d)
         return MalCompiler().compile(p) == spec
